@@ -57,6 +57,7 @@ class Ctx:
                                          "call_sites": 0}
         self.notes: List[str] = []
         self.info: List[str] = []
+        self.undecided: List[str] = []
 
     # ---------------------------------------------------------- obligations
     def ob(self, rule: str, site, ok: bool, msg: str, key: Optional[str] =
@@ -90,6 +91,16 @@ class Ctx:
 
     def note(self, s: str):
         self.notes.append(s)
+
+    def undecidable(self, rule: str, site, msg: str):
+        """third outcome of an obligation: the code uses an idiom the rule
+        does not model.  Never a verdict: reported as ANALYSIS-ERROR (exit 2)
+        unless a genuine violation is reported by the same run."""
+        if hasattr(site, "where"):
+            site = site.where
+        elif hasattr(site, "qualname"):
+            site = f"{site.file}:{site.lineno} ({site.qualname})"
+        self.undecided.append(f"{rule} at {site}: {msg}")
 
 
 def load_known() -> dict:
@@ -128,7 +139,8 @@ def main(argv=None) -> int:
     try:
         mod, ctx = run_rules(pid, args.repo, args.tier, seed)
         floors = getattr(mod, "FLOORS", {})
-        if not any(not o.ok for o in ctx.obligations):
+        if not any(not o.ok for o in ctx.obligations) and \
+                not ctx.undecided:
             # a rule that silently matches nothing would pass forever; but a
             # found violation is never masked by a floor
             for rule, n in floors.items():
@@ -150,7 +162,10 @@ def main(argv=None) -> int:
         print(json.dumps({"violated": [{"rule": o.rule, "key": o.key,
                                         "site": o.site, "msg": o.msg}
                                        for o in violated],
+                          "undecided": ctx.undecided,
                           "obligations": len(ctx.obligations)}))
+        if not violated and ctx.undecided:
+            return 2
         return 1 if violated else 0
 
     known = load_known()
@@ -186,6 +201,12 @@ def main(argv=None) -> int:
             for k, v in o.facts.items():
                 print(f"      {k}: {_short(v, 400)}")
         rc = 1
+    if ctx.undecided:
+        for u in ctx.undecided:
+            print(f"ANALYSIS-ERROR property={pid} unknown idiom, rule cannot "
+                  f"decide: {u}")
+        if rc == 0:
+            rc = 2
     if selftest is not None and selftest["deviations"]:
         for d in selftest["deviations"]:
             print(f"ANALYSIS-ERROR property={pid} self-validation: {d}")
@@ -233,6 +254,7 @@ def build_evidence(pid, mod, ctx: Ctx, tier, seed, wall, new_viol, known_hit,
         "trusted_base": getattr(mod, "TRUSTED", []),
         "known_findings_hit": sorted({o.key for o in known_hit}),
         "notes": ctx.notes,
+        "undecidable_obligations": ctx.undecided,
     }
     if selftest is not None:
         cov["self_validation"] = selftest
@@ -265,7 +287,11 @@ def _run_json(pid: str, repo: str) -> Optional[dict]:
            "--json", "--no-evidence"]
     pr = subprocess.run(cmd, capture_output=True, text=True, timeout=600)
     if pr.returncode == 2:
-        return {"error": pr.stdout.strip()[-500:]}
+        try:
+            j = json.loads(pr.stdout.strip().splitlines()[-1])
+            return {"error": "undecidable: " + "; ".join(j["undecided"])[:400]}
+        except Exception:
+            return {"error": pr.stdout.strip()[-500:]}
     try:
         return json.loads(pr.stdout.strip().splitlines()[-1])
     except Exception:
